@@ -18,6 +18,8 @@ EXPLANATION = (
     "delimiters, reproduce the stream character for character (identity-tracked, so a dropped, duplicated or reordered "
     "character is a mismatch). Structural side rules: the only row.append is under len(item) == field_length; every raise "
     "in fixed_rows is a DataFormatError with the location; widths come from field_names_and_lengths."
+    " Added in rounds 6 and 7: (O13.9) a stream whose name is missing, None, a file descriptor or bytes can be"
+    " read like any other (C04's source-name table)."
 )
 ASSUMPTIONS = ["the text stream's read(n) returns up to n characters and '' only at the end of input"]
 
